@@ -113,16 +113,16 @@ class time_limit:
 
     def __enter__(self):
         try:
-            self.old = signal.signal(signal.SIGALRM, _on_alarm)
+            self.old = signal.signal(signal.SIGVTALRM, _on_alarm)      # CPU time of this process, not wall time (load-independent)
         except ValueError:      # not in the main thread: no limit
             self.old = None
             return
-        signal.setitimer(signal.ITIMER_REAL, self.seconds)
+        signal.setitimer(signal.ITIMER_VIRTUAL, self.seconds)
 
     def __exit__(self, *a):
         if self.old is not None:
-            signal.setitimer(signal.ITIMER_REAL, 0)
-            signal.signal(signal.SIGALRM, self.old)
+            signal.setitimer(signal.ITIMER_VIRTUAL, 0)
+            signal.signal(signal.SIGVTALRM, self.old)
         return False
 
 
